@@ -224,12 +224,17 @@ func (st *Settings) Encode() {
 		)
 	}
 
+	// Always sent: the initial value of SETTINGS_ENABLE_PUSH is 1, so leaving
+	// it out when it is false never told the peer that push is disabled.
+	enablePush := byte(0)
 	if st.enablePush {
-		st.rawSettings = append(st.rawSettings,
-			byte(EnablePush>>8), byte(EnablePush),
-			0, 0, 0, 1,
-		)
+		enablePush = 1
 	}
+
+	st.rawSettings = append(st.rawSettings,
+		byte(EnablePush>>8), byte(EnablePush),
+		0, 0, 0, enablePush,
+	)
 
 	if st.maxStreams != 0 {
 		st.rawSettings = append(st.rawSettings,
